@@ -46,7 +46,8 @@ _XML_BAD = re.compile("[^\\u0009\\u000A\\u000D\\u0020-\\uD7FF\\uE000-\\uFFFD\\U0
 
 
 def opts() -> mmgen.Opts:
-    return mmgen.Opts(max_classes=5, max_props=4, invariants="none", docs="none", adversarial_text=True, nested_lists=False)
+    return mmgen.Opts(max_classes=5, max_props=4, invariants="none", docs="none", adversarial_text=True, nested_lists=False,
+                      defaults=True)
 
 
 @st.composite
